@@ -290,3 +290,19 @@ Theorem C09_source_impl_bounds :
   bounds_of "unsafe Concat<T,M> for GenericArray<T,N>" = Some ["M:ArrayLength"; "N:Add<M>"; "N:ArrayLength"; "Sum<N,M>:ArrayLength"] /\
   bounds_of "unsafe Remove<T,N> for GenericArray<T,N>" = Some ["N:ArrayLength"; "N:Sub<B1>"; "Sub1<N>:ArrayLength"].
 Proof. repeat split. Qed.
+
+(* ---- T1: what the traits of this property declare in the source now (coq/gen/GenSigs.v gen_trait_headers):
+        supertraits, parameter bounds, associated types with their bounds and method signatures -- code generic over one of
+        these traits can state exactly these bounds and rely on exactly these result types ---- *)
+From Coq Require Import String.
+From GA Require Import SigDefs.
+From GAGen Require Import GenSigs.
+Local Open Scope string_scope.
+
+Theorem C09_source_trait_headers :
+  trait_header_of "pub unsafe trait Lengthen<T>" = Some ["Self:GenericSequence<T>"; "Self:Sized"; "fn append (self , last : T) -> Self :: Longer"; "fn prepend (self , first : T) -> Self :: Longer"; "type Longer:Shorten<T,Shorter=Self>"] /\
+  trait_header_of "pub unsafe trait Shorten<T>" = Some ["Self:GenericSequence<T>"; "Self:Sized"; "fn pop_back (self) -> (Self :: Shorter , T)"; "fn pop_front (self) -> (T , Self :: Shorter)"; "type Shorter:Lengthen<T,Longer=Self>"] /\
+  trait_header_of "pub unsafe trait Split<T,K>" = Some ["K:ArrayLength"; "Self:GenericSequence<T>"; "fn split (self) -> (Self :: First , Self :: Second)"; "type First:GenericSequence<T>"; "type Second:GenericSequence<T>"] /\
+  trait_header_of "pub unsafe trait Concat<T,M>" = Some ["M:ArrayLength"; "Self:GenericSequence<T>"; "fn concat (self , rest : Self :: Rest) -> Self :: Output"; "type Output:GenericSequence<T>"; "type Rest:GenericSequence<T,Length=M>"] /\
+  trait_header_of "pub unsafe trait Remove<T,N>" = Some ["N:ArrayLength"; "Self:GenericSequence<T>"; "fn remove (self , idx : usize) -> (T , Self :: Output) {default}"; "fn swap_remove (self , idx : usize) -> (T , Self :: Output) {default}"; "type Output:GenericSequence<T>"; "unsafe fn remove_unchecked (self , idx : usize) -> (T , Self :: Output)"; "unsafe fn swap_remove_unchecked (self , idx : usize) -> (T , Self :: Output)"].
+Proof. repeat split. Qed.
